@@ -329,6 +329,46 @@ def check_long(case) -> Res:
     return r
 
 
+# ------------------------------------------------------------------ the file a write call finds at its target
+# octave_write reads the existing target (baseline for the diff, base_hash, changes / normalize input): whatever BYTES are there, every
+# mode answers with an envelope
+EXISTING_BYTES = {
+    "latin1": "===D===\nK::caf\xe9\n===END===\n".encode("latin-1"), "utf16": "===D===\nK::v\n===END===\n".encode("utf-16"), "nul": b"===D===\nK::\x00v\n===END===\n",
+    "lone_continuation": b"\x80\x81", "truncated_multibyte": "===D===\nK::é".encode("utf-8")[:-1], "bom_utf8": b"\xef\xbb\xbf===D===\nK::v\n===END===\n", "empty": b"",
+    "binary": bytes(range(256)), "surrogate_bytes": b"K::\xed\xa0\x80\n", "overlong": b"K::\xc0\xaf\n", "valid": b"===D===\nK::v\n===END===\n", "cr_only": b"===D===\rK::v\r===END===\r",
+}
+EXISTING_MODES = [dict(content="===D===\nK::new\n===END===\n"), dict(content="===D===\nK::new\n===END===\n", lenient=True), dict(content="K::new", lenient=True, parse_error_policy="salvage"),
+                  dict(content="===D===\nK::new\n===END===\n", corrections_only=True), dict(content="===D===\nK::new\n===END===\n", base_hash="0" * 64), dict(changes={"K": "new"}),
+                  dict(changes={"K": "new"}, lenient=True), dict(), dict(lenient=True), dict(corrections_only=True), dict(schema="META"), dict(content="===D===\nK::new\n===END===\n", schema="META", lenient=True)]
+
+
+def check_existing(case) -> Res:
+    name, mi = case
+    t = _tools()
+    path = os.path.join(t["dir"], f"ex{os.getpid()}.oct.md")
+    with open(path, "wb") as f:
+        f.write(EXISTING_BYTES[name])
+    kw = EXISTING_MODES[mi]
+    viol = []
+    out = None
+    try:
+        r = t["loop"].run_until_complete(t["w"].execute(target_path=path, **kw))
+        out = (r.get("status"), ((r.get("errors") or [{}])[0] or {}).get("code") if isinstance(r.get("errors"), list) and r.get("errors") else None)
+        if not isinstance(r, dict) or ("status" not in r and "validation_status" not in r):
+            viol.append(dict(descriptor="existing-target:not-an-envelope", case=dict(existing=name, mode=mi), observed=str(r)[:200], expected="an envelope dict"))
+        else:
+            json.dumps(r)
+    except Exception as e:      # noqa: BLE001
+        import traceback
+        tb = traceback.extract_tb(e.__traceback__)
+        site = next((f"{os.path.basename(f_.filename)}:{f_.name}" for f_ in reversed(tb) if "octave_mcp" in f_.filename), "?")
+        viol.append(dict(descriptor=f"existing-target:tool-raises:{type(e).__name__}@{site}", case=dict(existing=name, mode=mi), observed=f"{type(e).__name__}: {e}"[:300], expected="an envelope dict"))
+    finally:
+        if os.path.exists(path):
+            os.unlink(path)
+    return Res(str(out), nontrivial=(name, mi, out), violations=viol, transitions=1)
+
+
 # ------------------------------------------------------------------ YAML frontmatter values
 # the frontmatter is handed to a YAML loader by the schema validator (SKILL validates it): every scalar shape YAML resolves to a non-string
 # (dates that do not exist, times, hex/octal/sexagesimal ints, infinities, tags, anchors, merge keys) and every broken flow/block shape
@@ -355,7 +395,8 @@ def check_frontmatter_value(case) -> Res:
 # (schema names, banners, routing keys): every value KIND the reader can produce must be survivable in each of them
 META_KEYS = ["TYPE", "VERSION", "CONTRACT", "GRAMMAR", "ID", "STATUS", "SCHEMA", "COMPRESSION_TIER", "LOSS_PROFILE", "X"]
 META_KIND_VALUES = ["A", '"q s"', "5", "-1.5", "true", "null", "[A,B]", "[]", "[k::v]", "[[a],[b]]", '["^a"∧REQ→§SELF]', "A[x]", "a→b", "60%", "1.2.3",
-                    "", "\n    SUB::1\n    DEEP:\n      L::[1,2]", "\n```\nz\n```", "[FIELD::X]", "[FIELD[F]::REQ∧ENUM[a,b]]", "[GENERATE::[gbnf]]", '"[A,B]"']
+                    "", "\n    SUB::1\n    DEEP:\n      L::[1,2]", "\n```\nz\n```", "[FIELD::X]", "[FIELD[F]::REQ∧ENUM[a,b]]", "[FIELD[F]::REQ∧CONST[true],FIELD[G]::ENUM[null,x]]", "[FIELD[F]::CONST[1.0.0],FIELD[G]::CONST[$V],FIELD[H]::CONST[false]]",
+                    "[FIELD[F]::REQ∧CONST[5],FIELD[G]::RANGE[0,1.5]]", "[GENERATE::[gbnf]]", '"[A,B]"']
 META_BASES = [("TYPE::T", 'VERSION::"1.0"', "CONTRACT::[FIELD[F]::REQ∧ENUM[a,b]]"), ("TYPE::T", "CONTRACT::[FIELD::X]"), ("TYPE::T",), ()]
 
 
@@ -457,6 +498,11 @@ FAMILIES = {
     "many_vs": lambda n: "K::[" + ",".join(["AvsB"] * n) + "]\n",
     "many_triple_quotes": lambda n: "".join(f'K{i}::"""a\nb"""\n' for i in range(n)),
     "many_meta_fields": lambda n: "===D===\nMETA:\n" + "".join(f"  F{i}::v\n" for i in range(n)) + "---\nK::v\n===END===\n",
+    "many_flow_lines": lambda n: "".join(f"K{i}::a→b\n" for i in range(n)),
+    "many_flow_lines_ascii": lambda n: "".join(f"K{i}::a->b->c\n" for i in range(n)),
+    "many_flow_lines_in_block": lambda n: "B:\n" + "".join(f"  K{i}::x→y\n" for i in range(n)),
+    "many_multiword_lines": lambda n: "".join(f"K{i}::two words\n" for i in range(n)),
+    "many_wrong_case_lines": lambda n: "".join(f"K{i}::True\n" for i in range(n)),
     "many_duplicate_keys": lambda n: "".join("K::v\n" for i in range(n)),
     "many_curly": lambda n: "K::[" + ",".join(["A{b}"] * n) + "]\n",
     "many_unclosed_then_eof": lambda n: "K::[" + ",".join(["[a"] * min(n, 90)) + "\n",
@@ -482,15 +528,24 @@ def count_lines(fn) -> int:
     def on_line(code, line):
         cnt[0] += 1
 
+    def on_resume(code, offset):
+        cnt[0] += 1
+
+    # LINE events miss work done by re-entering ONE line many times: every item a generator expression / comprehension-with-yield hands to
+    # any() / all() / sum() resumes the same line (PY_RESUME), and a loop whose body is a single line jumps back to it (JUMP is a LINE
+    # event already).  Both are counted as steps.
+    E = mon.events
     mon.use_tool_id(tool, "vt-c20")
     try:
-        mon.register_callback(tool, mon.events.LINE, on_line)
-        mon.set_events(tool, mon.events.LINE)
+        mon.register_callback(tool, E.LINE, on_line)
+        mon.register_callback(tool, E.PY_RESUME, on_resume)
+        mon.set_events(tool, E.LINE | E.PY_RESUME)
         try:
             fn()
         finally:
             mon.set_events(tool, 0)
-            mon.register_callback(tool, mon.events.LINE, None)
+            mon.register_callback(tool, E.LINE, None)
+            mon.register_callback(tool, E.PY_RESUME, None)
     finally:
         mon.free_tool_id(tool)
     return cnt[0]
@@ -593,6 +648,7 @@ def run(ctx):
     longs = [(t, c, n, n in (4300, 4301) or not ctx.quick) for t in sorted(LONG_TOKENS) for c in LONG_CONTEXTS for n in LONG_SIZES]
     ctx.explore("readers.long", longs, check_long, chunk=10)
     ctx.explore("meta.kinds", meta_kind_space(), check_meta_kind, chunk=5)
+    ctx.explore("existing_target_bytes", [(n_, i) for n_ in sorted(EXISTING_BYTES) for i in range(len(EXISTING_MODES))], check_existing, chunk=6)
     ctx.explore("frontmatter.values", [(k, v) for k in FM_KEYS for v in FM_VALUES], check_frontmatter_value, chunk=5)
     ctx.explore("tools.seq", Sequences(T20, Lt), check_tools_seq, chunk=20)
     from ..pool import DOCS
@@ -643,6 +699,8 @@ def replay(ctx, rp):
             return check_mutation(tuple(case)).violations
         if sub == "scaling":
             return check_scaling(tuple(case)).violations
+        if sub == "existing_target_bytes":
+            return check_existing((case["existing"], case["mode"])).violations
         if sub == "frontmatter.values" and isinstance(case, dict) and "text" in case:
             return [v for v in check_tools_text(case["text"], None).violations if v["case"]["tool"] == case["tool"] and v["case"]["args"] == case["args"]]
         if sub == "nesting.depth":
